@@ -62,6 +62,9 @@ def _const_of(o):
     return None
 
 
+RANK_FB = [None]
+
+
 def ranking_info(b, head, tail):
     """(ok, description, info): the natural loop (tail -> head) is controlled by a counter: a test
     evaluated on every iteration leaves the loop once the counter reaches its bound, the counter
@@ -148,6 +151,24 @@ def ranking_info(b, head, tail):
             t = blk['term']
             if t['k'] == 'call' and t['dest']['l'] == ctr and i in loop:
                 others.append(i)
+        if init is None and 1 <= ctr <= b.argc and RANK_FB[0] is not None and not [x for x in others if x not in loop]:
+            # the budget is a parameter: every caller passes a positive constant
+            fb_ = RANK_FB[0]
+            vals = []
+            for cb in fb_.bodies():
+                for bb_, t_, fn_ in cb.calls():
+                    if fn_ and b.path in {mir.callee_name(fn_), fn_['path']} and len(t_['args']) >= ctr:
+                        a_ = t_['args'][ctr - 1]
+                        c_ = _const_of(a_)
+                        if c_ is None and a_.get('k') in ('copy', 'move') and not a_['p']['proj']:
+                            # a local assigned once from a constant
+                            defs = [s2['r'] for blk2 in cb.blocks for s2 in blk2['stmts']
+                                    if s2['k'] == 'assign' and s2['p']['l'] == a_['p']['l'] and not s2['p']['proj']]
+                            if len(defs) == 1 and defs[0]['k'] == 'use':
+                                c_ = _const_of(defs[0]['op'])
+                        vals.append(c_)
+            if vals and all(v is not None and v > 0 for v in vals):
+                init = max(vals)
         if init is None or init <= 0:
             last_why = 'counter _%d has no constant positive initial value dominating the loop' % ctr
             continue
@@ -360,9 +381,59 @@ def range_loop_info(b, head, tail):
     return False, '', None
 
 
+def array_loop_info(b, head, tail):
+    """fourth accepted loop shape: `for x in <array>` / `for x in <array>.iter()`: every iteration calls next() on an iterator
+    defined once, before the loop, from a value whose type is a fixed-length array `[T; N]`, and leaves when it is exhausted"""
+    import re
+    loop = b.natural_loop(tail, head)
+    for i in sorted(loop):
+        t = b.blocks[i]['term']
+        if t['k'] != 'call' or not t['func'].get('fn'):
+            continue
+        nm = mir.callee_name(t['func']['fn'])
+        if not (nm.endswith('::next') and ('std::array::' in nm or 'std::slice::Iter' in nm)) or not (b.dominates(i, tail) or i == tail):
+            continue
+        a0 = t['args'][0]
+        if a0.get('k') not in ('copy', 'move') or a0['p']['proj']:
+            continue
+        it = _origin(b, a0['p']['l'])
+        d = _defs_of(b, it)
+        if len(d) != 1 or d[0][0] in loop or not b.dominates(d[0][0], head):
+            continue
+        if d[0][1] != 'call' or not d[0][2]['func'].get('fn') or \
+                mir.callee_name(d[0][2]['func']['fn']).split('::')[-1] not in ('into_iter', 'iter'):
+            continue
+        a = d[0][2]['args'][0]
+        # an array iterator carries the length in its type: IntoIter<T, N>
+        mt = re.search(r'^std::array::(?:iter::)?IntoIter<.*, (\d+)>$', b.tystr(b.locals[it]['ty']))
+        if not mt and a.get('k') not in ('copy', 'move'):
+            continue
+        if not mt:
+            ty = b.tystr(a['p']['ty']) if 'ty' in a['p'] else b.tystr(b.locals[a['p']['l']]['ty'])
+            mt = re.search(r'\[.*; (\d+)\]$', ty.lstrip('&').replace('mut ', '').strip())
+        if not mt:
+            # `.iter()` on `&[T]` obtained from an array local by unsizing: look one definition back
+            src = _origin(b, a['p']['l'])
+            ty2 = b.tystr(b.locals[src]['ty'])
+            mt = re.search(r'\[.*; (\d+)\]$', ty2.lstrip('&').replace('mut ', '').strip())
+        if not mt:
+            continue
+        nxt = t['target']
+        st = b.blocks[nxt]['term'] if nxt is not None else None
+        if st is None or st['k'] != 'switch' or not any(tgt not in loop for tgt in b.succs(nxt)):
+            continue
+        n = int(mt.group(1))
+        return True, 'bounded `for` loop over an array of %d elements (next() at %s drives every iteration)' % (n, b.where(i)), \
+            {'ctr': None, 'init': n, 'decs': set(), 'dec_by': {1}, 'kind': ('array', 0)}
+    return False, '', None
+
+
 def ranking(b, head, tail):
     ok, why, _ = ranking_info(b, head, tail)
     if not ok:
+        ok4, why4, _ = array_loop_info(b, head, tail)
+        if ok4:
+            return True, why4
         ok2, why2, _ = range_loop_info(b, head, tail)
         if ok2:
             return True, why2
@@ -374,6 +445,7 @@ def ranking(b, head, tail):
 
 def run_rules(ctx, chk):
     fb = ctx.facts()
+    RANK_FB[0] = fb
     chk.explanation = ('B1: the only loop on the client call paths (in snapshot()) has a ranking variable. B2: no other CFG '
                        'cycle and no call-graph cycle in the closure of ClockBoundClient::now / clockbound_now. B3: every external '
                        'callee of that closure is non-blocking (deny-list of blocking families, libc limited to clock_gettime). '
